@@ -1,7 +1,9 @@
-"""C20 Text functions: slicing partitions, search is first-match (TEXT() is outside reach).
+"""C20 Text functions: slicing partitions, search is first-match, TEXT() number formats.
 
 Engine X on the apply_meta-wrapped left/mid/right/replace/find/substitute/concatenate/concat/
 trim/upper/lower/exact/len_ (the callables a compiled formula uses) with symbolic ASCII text.
+TEXT(k/10^j, fmt): the real text()/TextFormat.format_value/_number_converter/_number_token_converter for
+a concrete list of formats from the 0 # , . % grammar against an integer-arithmetic reference renderer.
 """
 from typing import Optional, Union
 
@@ -18,12 +20,18 @@ ENCODES = ["pycel.lib.text:left", "pycel.lib.text:mid", "pycel.lib.text:right", 
            "pycel.lib.text:find", "pycel.lib.text:substitute", "pycel.lib.text:concatenate", "pycel.lib.text:concat",
            "pycel.lib.text:trim", "pycel.lib.text:upper", "pycel.lib.text:lower", "pycel.lib.text:exact",
            "pycel.lib.text:len_", "pycel.lib.function_helpers:strs_wrapper", "pycel.lib.function_helpers:nums_wrapper",
-           "pycel.excelutil:coerce_to_string", "pycel.excelutil:coerce_to_number"]
+           "pycel.excelutil:coerce_to_string", "pycel.excelutil:coerce_to_number",
+           "pycel.lib.text:text", "pycel.lib.text:TextFormat.format_value", "pycel.lib.text:TextFormat._number_converter",
+           "pycel.lib.text:TextFormat._number_token_converter", "pycel.lib.date_time:DateTimeFormatter.new"]
 BOUNDS = ["text ASCII, len<=4 (quick) / <=5..6 (thorough) for the subject (REPLACE, SUBSTITUTE-nth one less), len<=2 for search/replacement text",
           "positions and counts -1..6; numbers as first argument: ints |v|<=99 and integral floats",
           "TRIM: text over the alphabet {' ', 'a'} enumerated by the solver up to length 4 (regex on symbolic text realises)",
-          "TEXT(x, fmt) is outside the claim (format()/locale are C code without a model)"]
-ASSUMPTIONS = ["floats as exact reals"]
+          "TEXT(x, fmt): x = k/10^j with |k| <= 9999 (five-digit k times the solver out), j in 0..3; fmt from the 18 concrete formats TEXT_FORMATS "
+          "(left side '#'s then '0's with optional thousands separator, right side '0's then '#'s, trailing %); one section only; "
+          "date/time, '?', literals, multi-section and text formats are outside the claim; the format string is tokenised concretely",
+          "TEXT: x is an exact real (k/10^j exactly), so repr(x) is that decimal; binary64 artefacts of x itself are outside the claim"]
+ASSUMPTIONS = ["floats as exact reals",
+               "TEXT: DateTimeFormatter.new runs as is but builds a formatter whose civil date fields are not computed (number formats never read them; a date token would fail loudly)"]
 
 
 def _w(f):
@@ -218,6 +226,85 @@ def ob_number_arg(k: int, n: int) -> Optional[bool]:
     return same(MID(float(k), 1, n), MID(txt, 1, n)) and same(LEN(k), len(txt))
 
 
+# ------------------------------------------------------------------ TEXT(x, fmt) for number formats
+# formats from the grammar  [#|0|,]* [. [0]*[#]*] [%]   (left side: '#'s then '0's, optional thousands separator)
+TEXT_FORMATS = ("0", "#", "00", "0.0", "0.00", "#.#", "#.##", "0.0#", "#.0", "0.", "#,##0", "#,##0.00", "#,###",
+                "0%", "0.0%", "#,##0.0%", "000.0", "#0.#")
+_TF = {}
+
+
+class _NumberOnlyFormatter(T.DateTimeFormatter):
+    """DateTimeFormatter.new() runs as is, but the civil date/time fields of the serial number (never read by a
+    number format) are not computed: a date token would fail loudly on the missing attributes"""
+
+    def __init__(self, serial_number, time=None):
+        self.serial_number = serial_number
+        self._cached_datetime = None
+
+
+def _text(x, fmt):
+    orig = T.DateTimeFormatter
+    T.DateTimeFormatter = _NumberOnlyFormatter
+    try:
+        return T.text(x, fmt)
+    finally:
+        T.DateTimeFormatter = orig
+
+
+def _plugin_flags():
+    from vf import chplugin
+    chplugin.FLAGS["decimal"] = chplugin.FLAGS["format"] = True
+
+
+def _dec_str(n):
+    """decimal digits of n >= 0"""
+    out = chr(48 + n % 10)
+    n = n // 10
+    while n > 0:
+        out = chr(48 + n % 10) + out
+        n = n // 10
+    return out
+
+
+def _ref_text(k, j, fmt):
+    """reference rendering of k/10^j: integer arithmetic, half away from zero"""
+    neg, a = k < 0, abs(k)
+    p = fmt.count("%")
+    body = fmt.replace("%", "")
+    left, dot, right = body.partition(".")
+    group = "," in left
+    left = left.replace(",", "")
+    d = len(right)
+    num, den = a * 100 ** p * 10 ** d, 10 ** j
+    n = (2 * num + den) // (2 * den)                # round half up of a non-negative rational
+    ip, fp = n // 10 ** d, n % 10 ** d
+    mind = len(left) - left.index("0") if "0" in left else 0
+    digits = _dec_str(ip) if ip > 0 else ""
+    if len(digits) < mind:
+        digits = "0" * (mind - len(digits)) + digits
+    if group and len(digits) > 3:
+        digits = (digits[:-6] + "," if len(digits) > 6 else "") + digits[-6:-3] + "," + digits[-3:]
+    out = ("-" if neg else "") + digits
+    if dot:
+        frac = _dec_str(10 ** d + fp)[1:] if d else ""
+        keep = right.count("0")
+        while len(frac) > keep and frac[-1:] == "0":
+            frac = frac[:-1]
+        out = out + "." + frac
+    return out + "%" * p
+
+
+def ob_text_number(fi, j, k: int) -> Optional[bool]:
+    """TEXT(k/10^j, fmt) renders the half-away-from-zero decimal rounding with the digits, grouping and percent
+    scaling the format asks for"""
+    if not -9999 <= k <= 9999:
+        return None
+    fmt = TEXT_FORMATS[fi]
+    _plugin_flags()
+    x = k / 10 ** j if j else k
+    return same(_text(x, fmt), _ref_text(k, j, fmt))
+
+
 def obligations(tier):
     obs = []
     L = 4 if tier == "quick" else 5
@@ -242,6 +329,11 @@ def obligations(tier):
         add(f"trim[n={n}]", "ob_trim", (n, False), 60, sig=s, group="trim")
         add(f"trim_edge[n={n}]", "ob_trim", (n, True), 60, sig=s, group="trim")
     add("number_arg", "ob_number_arg", (), 200, group="number")
+    for fi, fmt in enumerate(TEXT_FORMATS):
+        for j in (0, 1, 2, 3):
+            if tier == "quick" and (fi + j) % 3:
+                continue
+            add(f"text_number[{fmt},j={j}]", "ob_text_number", (fi, j), 200, group="text_number")
     if tier == "thorough":
         add("left_mid[L=6]", "ob_left_mid", (6,), 1500, group="slice")
         add("right[L=6]", "ob_right", (6,), 1500, group="slice")
